@@ -75,6 +75,14 @@ func storesInto(a ssa.Value, s *Symer) map[string]string {
 		return out
 	}
 	for _, ref := range *a.Referrers() {
+		if st, ok := ref.(*ssa.Store); ok && st.Addr == a {
+			// whole-struct initialisation from another local (x := T{...})
+			if src := allocOf(st.Val); src != nil && src != a {
+				for k, v := range storesInto(src, s) {
+					out[k] = v
+				}
+			}
+		}
 		if fa, ok := ref.(*ssa.FieldAddr); ok {
 			for _, r2 := range *fa.Referrers() {
 				if st, ok := r2.(*ssa.Store); ok && st.Addr == fa {
